@@ -38,7 +38,7 @@ func init() {
 			}
 			return 16
 		},
-		Rule: "each case = one real service stack (6 EOAs: rich, about k transactions' worth, empty; step price 0/1/12500000000; threshold 1-3 ms) + real TransactionPool + TXIDManager on the transitions' locator manager, and 3 proposal rounds. Round: offer 5-60 signed v3 transactions to the pool (timestamps on and around both window edges of the block to propose, runs of transactions of one sender that exhaust its balance at a random position, value sent to an empty account that spends it later in the same list, transactions already included in a finalized block, duplicates offered twice, step limits below the minimum, count/byte limits; in a third of the first rounds a self transfer with value of a poor sender followed by a spend of the same sender sized against the real remaining balance (exactly affordable, or 1..value above it); in another third a directed shape: fillers, then a large message transaction funding an empty account B, then a small transaction of B payable only from that funding, with Candidate's byte or count budget ending at the large one), call Candidate(wc of the parent state), judge the returned list with an independent ledger (window predicate, finalized-id set, no id twice, stepLimit >= default+input steps, balance >= stepLimit*price+value with the cumulative effect of the transactions before it) and differentially: service.NewTransition(parent, list, validated=false) must validate. The block is then executed and finalized and the next round starts with the pool as it is. Non-trivial = distinct round whose offered set contained at least one transaction the candidate list must not contain for each of two or more different reasons and whose returned list was not empty.",
+		Rule: "each case = one real service stack (6 EOAs: rich, about k transactions' worth, empty; step price 0/1/12500000000; threshold 1-3 ms) + real TransactionPool + TXIDManager on the transitions' locator manager, and 3 proposal rounds (a quarter of the cases instead: transactions on the window edges ts == bts+th / bts+th-1 / bts-th+1 are finalized, further blocks are finalized and flushed until their locator list left the cache, governance RAISES the threshold, and the finalized transactions are re-sent before one round). Round: offer 5-60 signed v3 transactions to the pool (timestamps on and around both window edges of the block to propose, runs of transactions of one sender that exhaust its balance at a random position, value sent to an empty account that spends it later in the same list, transactions already included in a finalized block, duplicates offered twice, step limits below the minimum, count/byte limits; in a third of the first rounds a self transfer with value of a poor sender followed by a spend of the same sender sized against the real remaining balance (exactly affordable, or 1..value above it); in another third a directed shape: fillers, then a large message transaction funding an empty account B, then a small transaction of B payable only from that funding, with Candidate's byte or count budget ending at the large one), call Candidate(wc of the parent state), judge the returned list with an independent ledger (window predicate, finalized-id set, no id twice, stepLimit >= default+input steps, balance >= stepLimit*price+value with the cumulative effect of the transactions before it) and differentially: service.NewTransition(parent, list, validated=false) must validate. The block is then executed and finalized and the next round starts with the pool as it is. Non-trivial = distinct round whose offered set contained at least one transaction the candidate list must not contain for each of two or more different reasons and whose returned list was not empty.",
 		MinNonTrivial: func(t string) int {
 			if t == ev.Thorough {
 				return 5000
@@ -48,7 +48,8 @@ func init() {
 		Required: []string{"rounds", "candidates_selected", "offered_outside_window", "offered_at_eq-max", "offered_at_eq-min", "offered_committed",
 			"offered_exhausting", "offered_below_min_step", "offered_spend_received", "selected_spend_received", "revalidated_ok", "limit_count_hit", "limit_bytes_hit", "offered_duplicate_add",
 			"directed_budget_shape_bytes", "directed_budget_shape_count", "directed_big_left_out",
-			"directed_self-then-overspend", "directed_self-then-exact-spend", "selected_self_transfer", "selected_self-then-exact-spend"},
+			"directed_self-then-overspend", "directed_self-then-exact-spend", "selected_self_transfer", "selected_self-then-exact-spend",
+			"candidates_after_eviction_with_raised_threshold", "reoffered_evicted_ts_eq_maxTSInDB"},
 		Assumptions: []string{
 			"the proposer's parent block is finalized when it proposes (consensus order), so 'included before' = finalized ids; Candidate is asked with the parent's result state",
 			"completeness (that every valid transaction is selected) is not part of the statement and not judged",
@@ -103,17 +104,18 @@ func (o *otx) w(e *env, full bool) wtx {
 }
 
 type env struct {
-	st        *feefix.Stack
-	price     *big.Int
-	defCost   int64
-	inputCost int64
-	th        int64 // µs
-	pool      *service.TransactionPool
-	lm        module.LocatorManager
-	byID      map[string]*otx
-	committed map[string]bool
-	nonce     int64
-	empties   []module.Wallet
+	st           *feefix.Stack
+	price        *big.Int
+	defCost      int64
+	inputCost    int64
+	th           int64 // µs
+	pool         *service.TransactionPool
+	lm           module.LocatorManager
+	byID         map[string]*otx
+	committed    map[string]bool
+	nonce        int64
+	empties      []module.Wallet
+	forceReoffer []*otx
 }
 
 func run(c *ev.Ctx) {
@@ -155,6 +157,10 @@ func run(c *ev.Ctx) {
 		c.Note("env price=%s default=%d input=%d th=%d", e.price, e.defCost, e.inputCost, e.th)
 		parent := st.Base
 		bts := int64(1000000 + r.Intn(100000))
+		if r.Intn(4) == 0 {
+			e.evictedScenario(c, r, parent, bts)
+			return
+		}
 		for round := 0; round < 3 && !c.Stopped(); round++ {
 			bts += 300 + int64(r.Intn(int(e.th)))
 			nb := e.round(c, r, parent, bts, round)
@@ -213,6 +219,88 @@ func (e *env) edgeTS(r *rand.Rand, bts int64) (int64, string) {
 }
 
 func inWindow(ts, bts, th int64) bool { return ts > bts-th && ts <= bts+th }
+
+// evictedScenario: transactions on the window edges of a block are finalized,
+// later blocks are finalized and flushed until the block's locator list left
+// the in-memory cache (DB path), a governance call RAISES the timestamp
+// threshold so that the old timestamps are valid again, and the finalized
+// transactions are sent to the pool once more. Only finalized + flushed +
+// evicted blocks are involved (no unfinalized trackers).
+func (e *env) evictedScenario(c *ev.Ctx, r *rand.Rand, parent *feefix.Block, bts int64) {
+	fin := func(b *feefix.Block) bool {
+		if !b.OK() {
+			c.Violation("harness.evicted-scenario.block", fmt.Sprint(b.ValidateErr, b.ExecErr))
+			return false
+		}
+		if err := b.Finalize(); err != nil {
+			c.Violation("harness.finalize", err.Error())
+			return false
+		}
+		txlocator.VerifWaitFlush(e.lm)
+		return true
+	}
+	// block times beyond the window of the initial tracker list (time 0, default
+	// threshold of 5 min), which otherwise stays at the head of the cache and
+	// keeps everything behind it cached
+	bts += 2000000000
+	th := e.th
+	var first []*otx
+	for _, ts := range []int64{bts + th, bts + th, bts + th - 1, bts - th + 1, bts} {
+		first = append(first, e.mk(r, 0, e.st.Wallets[1].Address(), big.NewInt(int64(1+r.Intn(50))), nil, ts, -1, "edge-finalized"))
+	}
+	txs := make([]module.Transaction, len(first))
+	for i, o := range first {
+		txs[i] = o.tx
+	}
+	c.Note("evicted-scenario bts=%d th=%d", bts, th)
+	b1 := e.st.Exec(parent, txs, bts, false)
+	if !fin(b1) {
+		return
+	}
+	for _, o := range first {
+		e.committed[string(o.tx.ID())] = true
+	}
+	// empty blocks until the list of b1 is evicted (a committed list with bts-th >= b1.bts+th)
+	b2 := e.st.Exec(b1, nil, bts+th+int64(r.Intn(int(th))), false)
+	if !fin(b2) {
+		return
+	}
+	newTh := th + int64(2+r.Intn(4))*1000
+	e.nonce++
+	gov, err := feefix.SignedTx(feefix.TxSpec{From: e.st.Gov, To: common.MustNewAddressFromString("cx0000000000000000000000000000000000000000"),
+		StepLimit: big.NewInt(100000000), Timestamp: bts + 2*th + 100, Nonce: big.NewInt(e.nonce), DataType: "call",
+		Data: map[string]interface{}{"method": "setTimestampThreshold", "params": map[string]interface{}{"threshold": fmt.Sprintf("0x%x", newTh/1000)}}})
+	if err != nil {
+		panic(err)
+	}
+	b3 := e.st.Exec(b2, []module.Transaction{gov}, bts+2*th+100+int64(r.Intn(200)), false)
+	if !fin(b3) {
+		return
+	}
+	if rs, err := b3.Receipts(); err != nil || rs[0].Status() != module.StatusSuccess {
+		c.Violation("harness.evicted-scenario.threshold-call", fmt.Sprint(err))
+		return
+	}
+	evicted := 0
+	_, _, maxTS := txlocator.VerifCacheInfo(e.lm, module.TransactionGroupNormal)
+	for _, o := range first {
+		if !txlocator.VerifCached(e.lm, o.tx.ID()) {
+			evicted++
+			if o.ts == maxTS {
+				c.Count("reoffered_evicted_ts_eq_maxTSInDB", 1)
+			}
+		}
+	}
+	if nl, nloc, _ := txlocator.VerifCacheInfo(e.lm, module.TransactionGroupNormal); evicted != len(first) {
+		c.Notef("evicted-scenario: evicted=%d of %d lists=%d locators=%d maxTS=%d b1=(%d,%d) b2=%d b3=%d", evicted, len(first), nl, nloc, maxTS, bts, th, b2.TS, b3.TS)
+	}
+	if evicted == len(first) {
+		c.Count("candidates_after_eviction_with_raised_threshold", 1)
+	}
+	e.th = newTh
+	e.forceReoffer = first
+	e.round(c, r, b3, b3.TS+200+int64(r.Intn(300)), 3)
+}
 
 func (e *env) round(c *ev.Ctx, r *rand.Rand, parent *feefix.Block, bts int64, round int) *feefix.Block {
 	ws, err := parent.Snapshot()
@@ -305,6 +393,17 @@ func (e *env) round(c *ev.Ctx, r *rand.Rand, parent *feefix.Block, bts int64, ro
 			}
 		}
 	}
+	for _, o := range e.forceReoffer {
+		cp := *o
+		cp.tag = "committed-evicted"
+		offered = append(offered, &cp)
+		c.Count("offered_committed", 1)
+		if inWindow(o.ts, bts, e.th) {
+			c.Count("offered_committed_in_window", 1)
+			reasons["committed"], reasons["evicted"] = true, true
+		}
+	}
+	e.forceReoffer = nil
 	r.Shuffle(len(offered), func(i, j int) { offered[i], offered[j] = offered[j], offered[i] })
 
 	// Directed shape (fresh pool only, so that the order in the pool is known):
